@@ -267,6 +267,10 @@ pub fn cases(refs: &Refs, quick: bool, warm: bool) -> Vec<Case> {
 			texts.insert(format!("s:{}é{}", "a".repeat(l), "b"));
 			texts.insert(format!("s:{}{}", "a".repeat(l), '\u{10000}'));
 		}
+		// literals whose length does not fit 16 bits (the URI macros expand to one token per byte)
+		for l in [65_535usize, 65_536] {
+			texts.insert(format!("s:{}", "a".repeat(l - 2)));
+		}
 		// every literal with an upper-case hex digit in a %XX triplet also in lower case (and one
 		// mixed-case variant): the constant must keep the spelling
 		let mut variants: Vec<String> = Vec::new();
